@@ -220,6 +220,7 @@ type worker struct {
 	pathOrd  map[uintptr]*mapOrd
 	warmOrd  map[uintptr]*mapOrd
 	assertsConc, assertsChk int
+	globalCells map[*value]string // cells inside package-level variables of the code under test (incl. struct fields)
 }
 
 func (ex *Explorer) Run() *Result {
@@ -427,6 +428,52 @@ func (w *worker) ensureInterp() {
 	w.resetPkgs = []*ssa.Package{ex.Pkg}
 }
 
+// collectGlobalCells records the addresses of all cells that make up the
+// package-level variables of the repository's packages (the variable itself
+// and, for struct/array values, every field/element cell), so that a store
+// through a pointer into such a variable is seen by the monitor as well.
+func (w *worker) collectGlobalCells() {
+	w.globalCells = map[*value]string{}
+	prefix := w.ex.Cfg.RepoPrefix
+	if prefix == "" {
+		return
+	}
+	var walk func(p *value, name string, depth int)
+	walk = func(p *value, name string, depth int) {
+		if p == nil || depth > 4 {
+			return
+		}
+		w.globalCells[p] = name
+		switch c := (*p).(type) {
+		case structure:
+			for i := range c {
+				walk(&c[i], name, depth+1)
+			}
+		case array:
+			for i := range c {
+				walk(&c[i], name, depth+1)
+			}
+		}
+	}
+	for g, cell := range w.i.globals {
+		if g.Pkg == nil || !strings.HasPrefix(g.Pkg.Pkg.Path(), prefix) || strings.HasSuffix(g.Pkg.Pkg.Path(), "/zzverif") || strings.HasSuffix(g.Pkg.Pkg.Path(), "/gen") {
+			continue
+		}
+		if strings.HasPrefix(g.Name(), "init$") || strings.HasPrefix(g.Name(), "verif") || strings.HasPrefix(g.Name(), "Verif") || isHarnessGlobal(g) {
+			continue
+		}
+		walk(cell, g.String(), 0)
+	}
+}
+
+func isHarnessGlobal(g *ssa.Global) bool {
+	pos := g.Pos()
+	if !pos.IsValid() {
+		return false
+	}
+	return strings.Contains(g.Pkg.Prog.Fset.Position(pos).Filename, "zz_verif")
+}
+
 func (w *worker) resetGlobals() {
 	for _, p := range w.resetPkgs {
 		for _, m := range p.Members {
@@ -482,6 +529,7 @@ func (w *worker) runPath(prefix []Decision) {
 		}()
 		w.resetGlobals()
 		call(w.i, nil, token.NoPos, ex.Pkg.Func("init"), nil)
+		w.collectGlobalCells()
 		call(w.i, nil, token.NoPos, ex.Pkg.Func(ex.Cfg.Harness), nil)
 	}()
 	if end == "panic" {
